@@ -149,6 +149,9 @@ func (c *UserGroupCache) ConvertUGI(ugi *si.UserGroupInformation, force bool) (U
 	if ugi == nil || ugi.User == "" {
 		if force {
 			// app creation is forced, so we need to synthesize a user / group
+			if ugi == nil {
+				ugi = &si.UserGroupInformation{}
+			}
 			ugi.User = common.AnonymousUser
 			ugi.Groups = []string{common.AnonymousGroup}
 		} else {
